@@ -7,9 +7,10 @@ for i in $(seq 1 $lanes); do git -C /repo worktree add -q --detach /tmp/seedlane
 ls -d seeded/C*-*m* | awk -v n=$lanes '{print > ("/tmp/seedlane_list_" (NR % n + 1))}'
 for i in $(seq 1 $lanes); do
   ( while read d; do
+      if grep -q thorough_only $d/meta.json; then echo "THOROUGH-ONLY $d (caught by the thorough tier, see meta.json)"; continue; fi
       if grep -q neutralised_by_fix $d/meta.json; then echo "SKIP $d (no longer property-breaking on the current tree, see meta.json)"; continue; fi
       ids=$(/venv/bin/python -c "import json;print(' '.join(json.load(open('$d/meta.json'))['caught_by'][:1]))")
-      out=$(SEED_TREE=/tmp/seedlane_$i VERIF_NPROC=6 tools/seed_eval.sh $PWD/$d/patch.diff $ids 2>&1)
+      out=$(SEED_TREE=/tmp/seedlane_$i VERIF_NPROC=5 tools/seed_eval.sh $PWD/$d/patch.diff $ids 2>&1)
       if echo "$out" | grep -q "^VIOLATION"; then echo "CAUGHT $d by $ids :: $(echo "$out" | grep -v KNOWN | grep "key=" | head -1 | cut -c1-150)"; else echo "MISSED $d ($ids)"; echo "$out" | tail -2; fi
     done < /tmp/seedlane_list_$i ) &
 done
